@@ -253,11 +253,25 @@ def impl(c):
         except ValueError:
             used = -1
         return "ok table=%s count=%d used=%d" % (table_str(new), total - round(lam1 * total), used)
-    t = {"".join(str(x) for x in key): v for key, v in c["table"]}
+    t = tr_mapping(c, {"".join(str(x) for x in key): v for key, v in c["table"]})
     try:
         return "ok %d" % cpl.table_rule(np.array(c["n"]), t)
     except Exception as e:  # noqa
         return fmt.err(e)
+
+
+def tr_mapping(c, t):
+    """The user's table as the kind of mapping users have: a plain dict, or a dict subclass with a default for
+    missing keys (collections.defaultdict / Counter, e.g. a table filled incrementally): absent is still absent."""
+    import collections
+    pick = (len(t) + sum(c["n"])) % 4
+    if pick == 1:
+        return collections.defaultdict(int, t)
+    if pick == 2:
+        return collections.Counter(t)
+    if pick == 3:
+        return collections.OrderedDict(sorted(t.items()))
+    return t
 
 
 def check_table(c, table, q, total, n):
@@ -337,7 +351,7 @@ def oracle(c):
     t = {"".join(str(x) for x in key): v for key, v in c["table"]}
     key = "".join(str(x) for x in c["n"])
     try:
-        got = cpl.table_rule(np.array(c["n"]), t)
+        got = cpl.table_rule(np.array(c["n"]), tr_mapping(c, dict(t)))
         return None if key in t and t[key] == got else "table_rule returned %s for %s" % (got, key)
     except ValueError:
         return None if key not in t else "ValueError although the neighbourhood is in the table"
